@@ -501,6 +501,11 @@ func (fr *Frame) applyContract(c *Contract, sig *types.Signature, recvT types.Ty
 		targets = append(targets, ts...)
 	}
 	for _, t := range targets {
+		if t.heap == "*" {
+			fr.frameCheckAll(c.Key)
+			fr.cur = fr.cur.HavocAll(fr.keepList())
+			continue
+		}
 		fr.frameCheckTarget(t, c.Key, ins)
 		h := fr.cur.Get(t.heap, t.sort)
 		if t.all || !strings.HasPrefix(t.sort, "(Array Int ") {
